@@ -31,6 +31,15 @@ ATOMS = ['x', 'y', 'f', 'g', 'round', 'i', 'H', 'S', 'B', 'K', '0', '1', '5', '2
          '12:30', '*:*5', '25:00', '1:2', '"-"', '""', '.5', '007']
 
 
+POWER_DEFAULT_SIG = 'C06/power-with-the-default-operand'     # D70, listed in KNOWN_FINDINGS.txt
+
+
+def power_default_fault():
+    """the machine stopped on the KeyError that Machine._power raises for the operand `default` (`on default`, `off default`)"""
+    ex = lang.LAST_EXC
+    return isinstance(ex, KeyError) and 'DEFAULT' in repr(ex.args[0] if ex.args else '')
+
+
 def soup(rng):
     n = rng.randint(1, 12)
     toks = []
@@ -225,7 +234,7 @@ def run(ctx):
     # every command with every operand form: what is accepted runs without an internal fault of the machine (D66: `on L row 1`)
     cmd_world = [('Candle', 'g', 'l', ('matrix', 5, 6)), ('Strip', 'g', 'l', ('multi', 8)), ('Top', 'h', 'l', ('plain',))]
     for action in ('set', 'on', 'off'):
-        for target in ('"Candle"', '"Strip"', '"Top"', '"nobody"', 'group "g"', 'location "l"', 'all'):
+        for target in ('"Candle"', '"Strip"', '"Top"', '"nobody"', 'group "g"', 'location "l"', 'all', 'default'):
             for suffix in ('', ' zone 1', ' zone 1 2', ' row 1', ' column 1', ' row 1 2 column 0 1', ' begin stage row 1 end', ' and "Top"', ' row 1 and "Top" column 0',
                            ' begin end', ' begin stage row 1 on "Top" end', ' begin off "Top" stage column 0 end and "Top"', ' begin stage row 1 set "Strip" zone 1 end'):
                 t = 'hue 120 %s %s%s' % (action, target, suffix)
@@ -236,7 +245,9 @@ def run(ctx):
                 elif o['ok'] and o.get('program') is not None:
                     ctx.nontriv(t)
                     st, evs = lang.run_program_impl(o['program'], cmd_world, max_steps=3000)
-                    if st.startswith('ABORT') and st not in ('ABORT:zerodiv', 'ABORT:value', 'ABORT:type'):
+                    if st == 'ABORT:internal' and power_default_fault():
+                        ctx.counterexample(POWER_DEFAULT_SIG, 'the accepted text %r stops the machine: Machine._power has no entry for the default operand (KeyError)' % t, {'text': t, 'world': cmd_world})
+                    elif st.startswith('ABORT') and st not in ('ABORT:zerodiv', 'ABORT:value', 'ABORT:type'):
                         ctx.counterexample('C06/accepted-command-stops-the-machine', 'the accepted text %r stops the machine: %s' % (t, st), {'text': t, 'world': cmd_world})
     for t in ['\u00e9\u00e8 hue 5', 'set "\u4e2d\u6587"', 'define \u03c0 3', '\u0661\u0662:\u0663\u0660', 'print "\U0001F4A1"', 'hue \u00b2', 'x\u00a0y', '\ufeffhue 1']:
         o = observe(t)
@@ -308,7 +319,9 @@ def run(ctx):
         ctx.count()
         if st == 'ABORT:assert' and 'pushing None' in str(lang.LAST_EXC):
             continue    # a variable read before the script assigned it (on the path taken): the script's error, reported by the machine
-        if st in ('ABORT:internal', 'ABORT:assert') or st.startswith('ABORT:other'):
+        if st == 'ABORT:internal' and power_default_fault():
+            ctx.counterexample(POWER_DEFAULT_SIG, 'the accepted text %r stops the machine: Machine._power has no entry for the default operand (KeyError)' % texts[i][1][:200], {'text': texts[i][1], 'world': world})
+        elif st in ('ABORT:internal', 'ABORT:assert') or st.startswith('ABORT:other'):
             ctx.counterexample('C06/accepted-script-hits-internal-fault-' + st.split(':', 1)[1],
                                'the accepted text %r stops with an internal fault (%s) when run' % (texts[i][1][:200], st), {'text': texts[i][1], 'world': world})
     ctx.extra['accepted_run'] = n_run
